@@ -1,6 +1,6 @@
 """C09 - see MANIFEST below and DESIGN.md section 4/C09."""
 from checks import pfcp_common as pc
-from checks import timer_phase
+from checks import timer_phase, wfail_phase
 
 MANIFEST = dict(
     text='Kernel-checked: every UPF-initiated request takes the counter as sequence number, which is < 2^24 and stays < 2^24 for every counter position (wrap-around included) and is registered under exactly that number; each expiry re-sends the same datagram while the retry count is below the maximum, then the entry is dropped; a response from the same peer with that sequence number releases the entry without any transmission; unmatched responses/expiries leave the whole state unchanged. Tie: differential run with the counter positioned at 0, 5, 2^24-2, 2^24-1 (in-package hook), reports, expiries, matching / wrong-peer / wrong-sequence / duplicated responses, retry counts 0..3; byte-identity monitor.',
@@ -16,4 +16,4 @@ N_QUICK, N_THOROUGH = 120, 3000
 
 def run(ctx, replay=None):
     return pc.run_property(ctx, "C09", pc.mon_c09, GEN, N_QUICK, N_THOROUGH, replay=replay, rule=RULE,
-                           assumptions=[pc.PFCP_NOTE], directed=pc.directed_c09, extra_phase=timer_phase.phase("C09", timer_phase.mon_c09_timed))
+                           assumptions=[pc.PFCP_NOTE], directed=pc.directed_c09, extra_phase=wfail_phase.both(wfail_phase.phase("C09"), timer_phase.phase("C09", timer_phase.mon_c09_timed)))
